@@ -12,6 +12,8 @@ def cubes(tier):
                     continue
                 for state in ((True,) if tier == "quick" else (True, False)):
                     out.append(dict(cls=cls, kind=kind, query=q, state=state, _w=2 if q == "checkout" else 1))
+        # index-level fetch from a verifying remote holding a damaged object into a verifying cache
+        out.append(dict(cls=cls, kind="file", query="fetch", _w=2))
     return out
 
 
@@ -24,7 +26,7 @@ SPEC = Spec(
         H("tamper", "vf.harness.c07_corrupt", "h_corrupt", cubes, timeout={"quick": 240, "thorough": 600}, real=True,
           bounds={"quick": "one file object or directory object added through the real add(); tamper pattern (none/truncate/append/same-length rewrite/"
                            "other-length rewrite/replace by rename), protected mode restored or not, hash-state cold or holding the entry from before "
-                           "the tampering, relink flag: all symbolic; cubes: store class x {check, oids_exist, status, checkout, verifying add of a corrupt source}",
+                           "the tampering, relink flag: all symbolic; cubes: store class x {check, oids_exist, status, checkout, verifying add of a corrupt source, index fetch from a verifying remote holding the damaged object}",
                   "thorough": "additionally without a hash-state cache, directory objects for every query"},
           smoke=[{"args": SMOKE, "cube": {"cls": c, "kind": "file", "query": q}} for c in ("local", "base") for q in QUERIES],
           encodes="HashFileDB.check/add/protect, LocalHashFileDB.check/oids_exist/protect/is_protected, hash.hash_file, State.get/save/save_many/_get, "
